@@ -11,16 +11,23 @@ From RV Require Export Model.Table.
 
 (* TokenIterator::next, iterated to exhaustion: recognizers are tried in the
    order of [sorted]; once a recognizer that MATCHED carried finish = true, no
-   further recognizer is tried. Result: (kind, match length) in yield order. *)
-Fixpoint token_iter (mlen : nat -> option nat) (sorted : list (nat * bool)) : list (nat * nat) :=
+   further recognizer is tried; once something has matched, passing a
+   finish-flagged recognizer that does NOT match stops the iteration too (the
+   end of a priority group is honoured also when the group's last terminal
+   does not match). Result: (kind, match length) in yield order. *)
+Fixpoint token_iter_from (mlen : nat -> option nat) (matched : bool) (sorted : list (nat * bool))
+  : list (nat * nat) :=
   match sorted with
   | [] => []
   | (t, fin) :: rest =>
       match mlen t with
-      | Some n => (t, n) :: (if fin then [] else token_iter mlen rest)
-      | None => token_iter mlen rest
+      | Some n => (t, n) :: (if fin then [] else token_iter_from mlen true rest)
+      | None => if matched && fin then [] else token_iter_from mlen matched rest
       end
   end.
+
+Definition token_iter (mlen : nat -> option nat) (sorted : list (nat * bool)) : list (nat * nat) :=
+  token_iter_from mlen false sorted.
 
 Definition max_len (toks : list (nat * nat)) : nat :=
   fold_left (fun m '(_, n) => Nat.max m n) toks 0.
